@@ -214,7 +214,7 @@ def run(scn):
                             ps = compute_variables(ps, m.weather_df, ck)
                             f = float(ps.Seasonal_Crop_List[0].fCO2)
                         else:
-                            cond, ps = reset_initial_conditions(ck, m._init_cond, ps, m._weather, m.crop)
+                            cond, ps = reset_initial_conditions(ck, m._init_cond, ps, m._weather, getattr(m, "_crop", m.crop))
                             f = float(ps.Seasonal_Crop_List[ck.season_counter].fCO2)
                     except Exception as e:  # noqa: BLE001
                         bad("fco2-computable", {"site": site, "conc": c, "exc": repr(e)[:120]}, "a value", site=site)
